@@ -216,6 +216,143 @@ def _rr(t):
     return R().visit(e)
 
 
+# ---------------------------------------------------------------------------------------------------
+# the admission test of the two belt stores (BeltStore._do_reserve_put): the decision structure is
+# translated (nested ifs -> one boolean over the record `glens`); the two local quantities
+# time_on_belt / time_on_belt_last_item must be defined by exactly the expected expressions (the model
+# computes them as TBelt.tob), otherwise the fragment falls back.
+GL_NAMES = {"time_on_belt": "(g_tob_last g)", "time_on_belt_last_item": "(g_tob_first g)"}
+TOB_EXPECTED = {
+    "time_on_belt": ["self.env.now - self.items[-1][0].conveyor_entry_time - self.items[-1][0].total_interruption_time",
+                     "self.env.now - self.items[-1][0].conveyor_entry_time - (self.env.now - self.items[-1][0].interruption_start_time) - self.items[-1][0].total_interruption_time"],
+    "time_on_belt_last_item": ["self.env.now - self.items[0][0].conveyor_entry_time - self.items[0][0].total_interruption_time",
+                               "self.env.now - self.items[0][0].conveyor_entry_time - (self.env.now - self.items[0][0].interruption_start_time) - self.items[0][0].total_interruption_time"]}
+TOB_GUARD = {"time_on_belt": "self.items[-1][0].interruption_start_time is not None",
+             "time_on_belt_last_item": "self.items[0][0].interruption_start_time is not None"}
+
+
+class GTr:
+    """expressions of the belt admission test over the record glens"""
+
+    def z(self, n):
+        src = ast.unparse(n)
+        if isinstance(n, ast.Name) and n.id in GL_NAMES:
+            return GL_NAMES[n.id]
+        if isinstance(n, ast.Call) and isinstance(n.func, ast.Name) and n.func.id == "len" and len(n.args) == 1:
+            f = fld(n.args[0])
+            if f in ("reservations_put", "items", "ready_items"):
+                return "(g_n_%s g)" % f
+            raise Unsupported("len of " + f)
+        if src == "self.capacity":
+            return "(g_cap g)"
+        if src == "self.env.now":
+            return "(g_now g)"
+        if src in ("self.items[-1][0].length / self.speed", "self.delay"):
+            return "(g_u g)"
+        if src == "self.items[0][0].length * self.capacity / self.speed":
+            return "(g_D g)"
+        if src == "self.items[-1][0].conveyor_entry_time":
+            return "(g_entry_last g)"
+        if isinstance(n, ast.Constant) and isinstance(n.value, int) and not isinstance(n.value, bool):
+            return "(%d)" % n.value
+        if isinstance(n, ast.BinOp) and isinstance(n.op, (ast.Add, ast.Sub)):
+            return "(%s %s %s)" % (self.z(n.left), "+" if isinstance(n.op, ast.Add) else "-", self.z(n.right))
+        raise Unsupported("belt term " + src[:60])
+
+    def flag(self, n):
+        src = ast.unparse(n)
+        return {"self.accumulation_mode_indicator": "(g_acc g)", "self.noaccumulation_mode_on": "(g_noacc g)",
+                "self.one_item_inserted": "(g_one g)"}.get(src)
+
+    def b(self, n):
+        src = ast.unparse(n)
+        if isinstance(n, ast.BoolOp):
+            # np.abs(a - b) < 1e-05 or a > b   ==   b <= a   (on values whose differences are not below the tolerance)
+            if isinstance(n.op, ast.Or) and len(n.values) == 2:
+                l, r = n.values
+                if (isinstance(l, ast.Compare) and isinstance(l.ops[0], ast.Lt) and isinstance(l.left, ast.Call)
+                        and ast.unparse(l.left.func) == "np.abs" and isinstance(l.left.args[0], ast.BinOp)
+                        and isinstance(l.left.args[0].op, ast.Sub) and isinstance(l.comparators[0], ast.Constant)
+                        and l.comparators[0].value == 1e-05 and isinstance(r, ast.Compare) and isinstance(r.ops[0], ast.Gt)
+                        and ast.unparse(r.left) == ast.unparse(l.left.args[0].left)
+                        and ast.unparse(r.comparators[0]) == ast.unparse(l.left.args[0].right)):
+                    return "(%s <=? %s)" % (self.z(r.comparators[0]), self.z(r.left))
+            op = "&&" if isinstance(n.op, ast.And) else "||"
+            return "(" + (" %s " % op).join(self.b(v) for v in n.values) + ")"
+        if isinstance(n, ast.UnaryOp) and isinstance(n.op, ast.Not):
+            return "(negb %s)" % self.b(n.operand)
+        if self.flag(n):
+            return self.flag(n)
+        if isinstance(n, ast.Compare) and len(n.ops) == 1:
+            l, r = n.left, n.comparators[0]
+            if self.flag(l) and isinstance(r, ast.Constant) and isinstance(r.value, bool) and isinstance(n.ops[0], ast.Eq):
+                return self.flag(l) if r.value else "(negb %s)" % self.flag(l)
+            ops = {ast.Lt: "%s <? %s", ast.LtE: "%s <=? %s", ast.Gt: "%s >? %s", ast.GtE: "%s >=? %s", ast.Eq: "%s =? %s"}
+            if type(n.ops[0]) in ops:
+                return "(" + ops[type(n.ops[0])] % (self.z(l), self.z(r)) + ")"
+        if src in ("self.items", "self.reservations_put"):
+            return "(negb (g_n_%s g =? 0))" % src.split(".")[1]
+        raise Unsupported("belt test " + src[:60])
+
+    def grants(self, stmts):
+        """boolean: executing these statements reaches the grant (reservations_put.append / dry-run True)"""
+        guard = []       # negated early-return conditions
+        alts = []
+        for s in stmts:
+            if isinstance(s, ast.Expr) and isinstance(s.value, ast.Constant):
+                continue
+            if isinstance(s, ast.Expr) and isinstance(s.value, ast.Call):
+                src = ast.unparse(s.value)
+                if src.startswith("print("):
+                    continue
+                if src in ("self.reservations_put.append(event)", "event.succeed()"):
+                    alts.append("true")
+                    break
+                raise Unsupported("call " + src[:50])
+            if isinstance(s, ast.Assign) and len(s.targets) == 1 and isinstance(s.targets[0], ast.Name) and s.targets[0].id in TOB_EXPECTED:
+                if ast.unparse(s.value) != TOB_EXPECTED[s.targets[0].id][0]:
+                    raise Unsupported("definition of %s changed" % s.targets[0].id)
+                continue
+            if isinstance(s, ast.Assign) and ast.unparse(s) == "self.one_item_inserted = True":
+                continue
+            if isinstance(s, ast.If):
+                tsrc = ast.unparse(s.test)
+                if tsrc == "dry_run" and len(s.body) == 1 and ast.unparse(s.body[0]) == "return True" and not s.orelse:
+                    continue                     # the grant follows
+                if tsrc in TOB_GUARD.values() and not s.orelse:
+                    body = [b_ for b_ in s.body if not (isinstance(b_, ast.Expr) and ast.unparse(b_.value).startswith("print("))]
+                    name = [k for k, v in TOB_GUARD.items() if v == tsrc][0]
+                    if len(body) == 1 and isinstance(body[0], ast.Assign) and ast.unparse(body[0].targets[0]) == name \
+                            and ast.unparse(body[0].value) == TOB_EXPECTED[name][1]:
+                        continue
+                    raise Unsupported("interrupted-time correction of %s changed" % name)
+                if tsrc == "self.noaccumulation_mode_on" and all(ast.unparse(b_) == "self.one_item_inserted = True" for b_ in s.body) and not s.orelse:
+                    continue
+                if not s.orelse and len(s.body) == 1 and isinstance(s.body[0], ast.Return) and s.body[0].value is None:
+                    guard.append("(negb %s)" % self.b(s.test))
+                    continue
+                c = self.b(s.test)
+                th = self.grants(s.body)
+                el = self.grants(s.orelse) if s.orelse else "false"
+                alts.append("(if %s then %s else %s)" % (c, th, el))
+                continue
+            if isinstance(s, ast.Pass):
+                continue
+            raise Unsupported("statement " + ast.unparse(s)[:50])
+        body = "(" + " || ".join(alts) + ")" if alts else "false"
+        return "(" + " && ".join(guard + [body]) + ")" if guard else body
+
+
+GATE_FALLBACK_CONT = ("((negb (negb (g_n_reservations_put g =? 0))) && ((if (negb (g_n_items g =? 0)) then ((if ((g_n_reservations_put g + g_n_items g) + g_n_ready_items g <? g_cap g) "
+                      "then ((if ((g_acc g) || ((negb (g_noacc g)) && (g_n_ready_items g =? (0))) || ((g_noacc g) && (g_n_ready_items g =? (0)))) then ((if ((g_u g) <=? (g_tob_last g)) "
+                      "then ((if ((g_tob_first g) >=? (g_D g)) then false else true)) else false)) else false)) else false)) else "
+                      "(if ((((g_n_reservations_put g + g_n_items g) + g_n_ready_items g) <? (g_cap g)) && ((g_acc g) || ((g_n_ready_items g) =? (0)))) then true else false))))")
+
+
+def belt_gate(tree):
+    return GTr().grants(find(tree, "BeltStore", "_do_reserve_put").body)
+
+
 def main():
     ap = argparse.ArgumentParser()
     ap.add_argument("--repo", default="/repo")
@@ -224,7 +361,9 @@ def main():
     src = os.path.join(a.repo, "src", "factorysimpy")
     out = ["(* GENERATED by translator/py_to_gallina.py from %s -- do not edit, never committed *)" % src,
            "From Coq Require Import ZArith Bool.", "Open Scope Z_scope.",
-           "Record lens := { " + "; ".join("n_%s : Z" % f for f in FIELDS) + "; capacity : Z }.", ""]
+           "Record lens := { " + "; ".join("n_%s : Z" % f for f in FIELDS) + "; capacity : Z }.",
+           "Record glens := { g_n_reservations_put : Z; g_n_items : Z; g_n_ready_items : Z; g_cap : Z; g_acc : bool; g_noacc : bool; "
+           "g_one : bool; g_tob_last : Z; g_tob_first : Z; g_u : Z; g_D : Z; g_now : Z; g_entry_last : Z }.", ""]
     report = {}
     trees = {}
     for fr in FRAGS:
@@ -247,6 +386,15 @@ def main():
         else:
             out.append("Definition %s (l : lens) : %s := %s." % (fr["name"], "Z" if fr["kind"] == "Z" else "bool", text))
         report[fr["name"]] = dict(status=status, source=fr["file"], gallina=text, why=why)
+    for name, file in (("ContBeltStore_gate", "base/belt_store.py"), ("SlotBeltStore_gate", "base/slotted_belt_store.py")):
+        path = os.path.join(src, file)
+        status, why = "ok", ""
+        try:
+            text = belt_gate(ast.parse(open(path).read()))
+        except Exception as ex:  # fail closed
+            status, why, text = "fallback", "%s: %s" % (type(ex).__name__, ex), "false"
+        out.append("Definition %s (g : glens) : bool := %s." % (name, text))
+        report[name] = dict(status=status, source=file, gallina=text, why=why)
     text = "\n".join(out) + "\n"
     os.makedirs(a.out, exist_ok=True)
     target = os.path.join(a.out, "SrcFragments.v")
